@@ -1,5 +1,8 @@
 use core::any::TypeId;
+#[cfg(not(unimock_verif))]
 use core::sync::atomic::AtomicUsize;
+#[cfg(unimock_verif)]
+use crate::verif::sync::AtomicUsize;
 
 use crate::alloc::{vec, BTreeMap, Vec};
 use crate::debug;
@@ -61,7 +64,6 @@ impl SharedState {
 #[cfg(unimock_verif)]
 impl SharedState {
     pub(crate) fn verif_next_ordered(&self) -> usize {
-        self.next_ordered_call_index
-            .load(core::sync::atomic::Ordering::SeqCst)
+        self.next_ordered_call_index.peek()
     }
 }
